@@ -236,6 +236,7 @@ impl Report {
     }
     /// one evaluated case; `nontrivial` cases are counted as distinct by `hash`
     pub fn case(&mut self, class: &str, hash: u64, nontrivial: bool) {
+        heartbeat(class);
         self.evaluations += 1;
         *self.classes.entry(class.to_string()).or_insert(0) += 1;
         if nontrivial {
@@ -309,3 +310,76 @@ impl Report {
         }
     }
 }
+
+/// Run `f` on a helper thread and wait for it. An operation that has not returned after `secs`
+/// (orders of magnitude above its normal duration) is a bounded-progress violation: a thread that
+/// spins cannot be cancelled, so the witness is written next to the report (`<out>.hang`) and the
+/// process exits with status 3; the driver turns that into a violation with the given signature.
+pub fn with_deadline<T: Send>(opts: &Opts, secs: u64, sig: &str, witness: serde_json::Value, f: impl FnOnce() -> T + Send) -> T {
+    std::thread::scope(|sc| {
+        let h = sc.spawn(f);
+        let t0 = std::time::Instant::now();
+        while !h.is_finished() {
+            if t0.elapsed().as_secs() >= secs {
+                let marker = serde_json::json!({"sig": sig, "deadline_s": secs, "witness": witness});
+                if let Some(out) = &opts.out {
+                    let _ = std::fs::write(format!("{out}.hang"), serde_json::to_vec(&marker).unwrap());
+                }
+                eprintln!("pvmon: operation did not return within {secs}s: {sig} {witness}");
+                std::process::exit(3);
+            }
+            std::thread::sleep(std::time::Duration::from_micros(300));
+        }
+        match h.join() {
+            Ok(v) => v,
+            Err(p) => std::panic::resume_unwind(p),
+        }
+    })
+}
+
+// ---------------------------------------------------------------------------------------------
+// Process-wide progress watchdog: monitors bump a heartbeat for every case; if no case completes for
+// `PVMON_STALL_SECS` (default 600 s - single cases take micro- to milliseconds, the slowest ones a
+// few seconds) the operation under test is not returning. The journal line (C04) or the last class
+// names the case. Exit status 3 + `<out>.hang` marker -> the driver reports a violation.
+static HEARTBEAT: std::sync::atomic::AtomicU64 = std::sync::atomic::AtomicU64::new(0);
+static LAST_CLASS: std::sync::Mutex<String> = std::sync::Mutex::new(String::new());
+
+pub fn heartbeat(class: &str) {
+    let n = HEARTBEAT.fetch_add(1, std::sync::atomic::Ordering::Relaxed);
+    if n % 64 == 0 {
+        if let Ok(mut l) = LAST_CLASS.try_lock() {
+            l.clear();
+            l.push_str(class);
+        }
+    }
+}
+
+#[cfg(not(miri))]
+pub fn start_watchdog(opts: &Opts) {
+    let secs: u64 = std::env::var("PVMON_STALL_SECS").ok().and_then(|s| s.parse().ok()).unwrap_or(600);
+    let out = opts.out.clone();
+    let prop = opts.prop.to_uppercase();
+    std::thread::spawn(move || {
+        let mut last = (HEARTBEAT.load(std::sync::atomic::Ordering::Relaxed), std::time::Instant::now());
+        loop {
+            std::thread::sleep(std::time::Duration::from_secs(2));
+            let now = HEARTBEAT.load(std::sync::atomic::Ordering::Relaxed);
+            if now != last.0 {
+                last = (now, std::time::Instant::now());
+            } else if now > 0 && last.1.elapsed().as_secs() >= secs {
+                let class = LAST_CLASS.lock().map(|l| l.clone()).unwrap_or_default();
+                let backend = class.split('.').next().unwrap_or("").to_string();
+                let marker = serde_json::json!({"sig": format!("{prop}|{backend}|operation-does-not-return"), "deadline_s": secs,
+                    "witness": {"cases_completed": now, "last_class": class, "note": "no case completed within the deadline; for C04 the journal file of this shard names the input"}});
+                if let Some(out) = &out {
+                    let _ = std::fs::write(format!("{out}.hang"), serde_json::to_vec(&marker).unwrap());
+                }
+                eprintln!("pvmon: no progress for {secs}s after {now} cases (last class {class})");
+                std::process::exit(3);
+            }
+        }
+    });
+}
+#[cfg(miri)]
+pub fn start_watchdog(_: &Opts) {}
